@@ -6,6 +6,7 @@ import datetime
 import decimal
 import io
 import struct
+import threading
 from typing import Callable, Dict, Iterable, List, Optional, Sequence, Set, Tuple
 
 from sa.astx import NotConst, body_walk, const_eval, dotted, lincmp, src, walk_local
@@ -350,6 +351,109 @@ def _mod_assign(m, name: str):
     return cache[name]
 
 
+class _GenClosed(BaseException):
+    pass
+
+
+class GenValue:
+    """A generator object of interpreted code.  The body runs in a thread of its own that alternates strictly with the consumer (a coroutine
+    by hand-over), so validation inside the generator interleaves with the consumer's effects exactly as in Python."""
+
+    def __init__(self, ev, run):
+        self.ev, self._run = ev, run
+        self._to_gen, self._to_con = threading.Semaphore(0), threading.Semaphore(0)
+        self._thread: Optional[threading.Thread] = None
+        self._done = self._closed = False
+        self._msg: Tuple[str, object] = ("return", None)
+        self._seg: List[object] = []
+        self._dextra = 0
+        self._base = self._depth0 = 0
+
+    def __iter__(self):
+        return self
+
+    def _body(self):
+        self._to_gen.acquire()
+        try:
+            if not self._closed:
+                self._run(self)
+            self._msg = ("return", None)
+        except _GenClosed:
+            self._msg = ("return", None)
+        except BaseException as e:      # Raised / Unsupported / analyser errors: re-raised in the consumer
+            self._msg = ("raise", e)
+        self._done = True
+        self._to_con.release()
+
+    def _yield(self, v):
+        ev = self.ev
+        self._seg = ev._cls_stack[self._base:]
+        del ev._cls_stack[self._base:]
+        self._dextra = ev.depth - self._depth0
+        ev.depth = self._depth0
+        self._msg = ("yield", v)
+        self._to_con.release()
+        self._to_gen.acquire()
+        if self._closed:
+            raise _GenClosed()
+        return None
+
+    def __next__(self):
+        if self._done:
+            raise StopIteration
+        ev = self.ev
+        ev._tick()
+        self._base, self._depth0 = len(ev._cls_stack), ev.depth
+        ev._cls_stack.extend(self._seg)
+        ev.depth += self._dextra
+        self._seg, self._dextra = [], 0
+        if self._thread is None:
+            self._thread = threading.Thread(target=self._body, daemon=True)
+            self._thread.start()
+        self._to_gen.release()
+        self._to_con.acquire()
+        kind, v = self._msg
+        if kind == "yield":
+            return v
+        del ev._cls_stack[self._base:]
+        ev.depth = self._depth0
+        if kind == "return":
+            raise StopIteration
+        raise v     # type: ignore[misc]
+
+    def close(self):
+        if self._done or self._thread is None:
+            self._done = True
+            return
+        self._closed = True
+        ev = self.ev
+        base, depth = len(ev._cls_stack), ev.depth
+        self._to_gen.release()
+        self._to_con.acquire()
+        del ev._cls_stack[base:]
+        ev.depth = depth
+        self._done = True
+
+
+def _is_generator_def(f) -> bool:
+    r = getattr(f, "_g_isgen", None)
+    if r is None:
+        r = False
+        if not isinstance(f, ast.Lambda):
+            todo = list(f.body)
+            while todo and not r:
+                x = todo.pop()
+                if isinstance(x, (ast.Yield, ast.YieldFrom)):
+                    r = True
+                elif not isinstance(x, (ast.FunctionDef, ast.AsyncFunctionDef, ast.Lambda, ast.ClassDef)):
+                    todo.extend(ast.iter_child_nodes(x))
+        try:
+            f._g_isgen = r
+        except AttributeError:
+            pass
+    return r
+
+
 class BudgetExhausted(Unsupported):
     """The step budget ran out: for a rule that sets a small budget on purpose this is the observation 'does not terminate'."""
 
@@ -620,6 +724,18 @@ class MiniEval:
                     env[p.arg] = self.expr(d, dict(closure or {}))
             if isinstance(f, ast.Lambda):
                 return self.expr(f.body, env)
+            if _is_generator_def(f):
+                def run(gen, f=f, env=env, cls=cls):
+                    env["<generator>"] = gen
+                    self.depth += 1
+                    self._cls_stack.append(cls)
+                    try:
+                        self.block(f.body, env)
+                    finally:
+                        if self._cls_stack:
+                            self._cls_stack.pop()
+                        self.depth -= 1
+                return GenValue(self, run)
             r = self.block(f.body, env)
             return r[1] if r and r[0] == "return" else None
         finally:
@@ -774,16 +890,21 @@ class MiniEval:
             if isinstance(it, (Inst, Stub, Opaque, NativeModel)):
                 raise Unsupported("iteration over " + type(it).__name__)
             broke = False
-            for x in list(it):
-                self._tick()
-                self.store(st.target, x, env)
-                r = self.block(st.body, env)
-                if r is not None:
-                    if r[0] == "break":
-                        broke = True
-                        break
-                    if r[0] == "return":
-                        return r
+            lazy = isinstance(it, GenValue)
+            try:
+                for x in (it if lazy else list(it)):
+                    self._tick()
+                    self.store(st.target, x, env)
+                    r = self.block(st.body, env)
+                    if r is not None:
+                        if r[0] == "break":
+                            broke = True
+                            break
+                        if r[0] == "return":
+                            return r
+            finally:
+                if lazy:
+                    it.close()
             if not broke and st.orelse:
                 return self.block(st.orelse, env)
             return None
@@ -1154,6 +1275,21 @@ class MiniEval:
             return _Closure(n, env, self._cls_stack[-1] if self._cls_stack else None)
         if isinstance(n, ast.Call):
             return self.call(n, env)
+        if isinstance(n, ast.Yield):
+            gen = env.get("<generator>")
+            if not isinstance(gen, GenValue):
+                raise Unsupported("yield outside an interpreted generator function")
+            return gen._yield(self.expr(n.value, env) if n.value is not None else None)
+        if isinstance(n, ast.YieldFrom):
+            gen = env.get("<generator>")
+            if not isinstance(gen, GenValue):
+                raise Unsupported("yield outside an interpreted generator function")
+            inner = _plain(self.expr(n.value, env))
+            if isinstance(inner, (Inst, Stub, Opaque, NativeModel, int, float, type(None), bool)):
+                raise Unsupported("yield from " + type(inner).__name__)
+            for v in inner:
+                gen._yield(v)
+            return None
         if isinstance(n, ast.Starred):
             raise Unsupported("starred expression")
         raise Unsupported("expression " + type(n).__name__)
